@@ -529,16 +529,30 @@ def r07t(rep, prog, only_files=None):
                     for y in [a0.object_arg().strip_all()] + list(a0.object_arg().walk()):
                         if y.k == 'MemberExpr' and y.decl_id is not None:
                             sorted_fields.add(y.decl_id)
-            if x.k == 'CXXMemberCallExpr' and x.callee and x.callee['name'] in ('push_back', 'emplace_back') and x.object_arg() is not None:
+            if x.k == 'CXXMemberCallExpr' and x.callee and x.callee['name'] in ('push_back', 'emplace_back') and x.object_arg() is not None and x.args():
                 o = x.object_arg().strip_all()
-                if o.k == 'MemberExpr' and o.decl_id is not None:
+                if o.k == 'MemberExpr' and o.decl_id is not None and any(
+                        y.k == 'CallExpr' and y.callee and y.callee['g'] in ('boost::target', 'boost::source', 'boost::opposite') for y in [x.args()[0].strip_all()] + list(x.args()[0].walk())):
                     appended_fields.add(o.decl_id)
     # a local vector that is appended to and then handed to a constructor of a record: the vector members of that record hold it
     for f in prog.functions:
         if f.body is None:
             continue
+        def vertex_index_value(e_, depth=0):
+            # the appended value is the index of a graph vertex (index_map[target(e, g)], get(index_map, v), a local defined so): along a path such
+            # indices come in no particular order - this is what makes the sequence provably unsorted
+            s_ = e_.strip_all()
+            for y in [s_] + list(s_.walk()):
+                if y.k == 'CallExpr' and y.callee and y.callee['g'] in ('boost::target', 'boost::source', 'boost::opposite'):
+                    return True
+            v_ = ex.var_of(s_)
+            if v_ is not None and depth < 3:
+                d_ = ex.unique_def(f, v_)
+                if d_ is not None:
+                    return vertex_index_value(d_, depth + 1)
+            return False
         appended_locals = {ex.var_of(x.object_arg()) for x in f.walk() if x.k == 'CXXMemberCallExpr' and x.callee and x.callee['name'] in ('push_back', 'emplace_back')
-                           and x.object_arg() is not None and ex.var_of(x.object_arg()) is not None and
+                           and x.object_arg() is not None and ex.var_of(x.object_arg()) is not None and x.args() and vertex_index_value(x.args()[0]) and
                            ((prog.base_type(x.object_arg().strip_all().j.get('t')) or {}).get('rec') or '') == 'std::vector'}
         appended_locals.discard(None)
         if not appended_locals:
@@ -581,7 +595,7 @@ def r07t(rep, prog, only_files=None):
                     if fid in sorted_fields:
                         rep.info('R07t', c, fn, what, 'the member `%s` is sorted somewhere in the program' % prog.vars[fid]['name'])
                     elif fid in appended_fields:
-                        rep.violation('R07t', c, fn, what, '`%s` runs over the std::vector member `%s`, which is filled with push_back and never sorted anywhere: the algorithm '
+                        rep.violation('R07t', c, fn, what, '`%s` runs over the std::vector member `%s`, which is filled with push_back of vertex indices in path order and never sorted anywhere: the algorithm '
                                       'requires sorted ranges, its result depends on the order in which the elements were appended' % (
                                           c.text(50), prog.vars[fid]['name']), key='R07t|%s|%s' % (fn.g, prog.vars[fid]['name']))
                     else:
